@@ -325,6 +325,29 @@ func genProxyPhase() (string, error) {
 		return true
 	})
 
+	// doRetry: after the back-off sleep and before it chooses a host, a pending local reply ends the retry
+	// (top-level statements of the body, in order: time.Sleep(...); if s.directResponse { return }; ... initializeUpstreamConnectionPool)
+	skips := false
+	{
+		sleepAt, ifAt, poolAt := -1, -1, -1
+		for i, st := range dr.Body.List {
+			txt := src(st)
+			if es, ok := st.(*ast.ExprStmt); ok && sleepAt < 0 && strings.HasPrefix(src(es.X), "time.Sleep(") {
+				sleepAt = i
+			}
+			if is, ok := st.(*ast.IfStmt); ok && ifAt < 0 && is.Init == nil && is.Else == nil && src(is.Cond) == "s.directResponse" &&
+				len(is.Body.List) == 1 {
+				if rs, ok := is.Body.List[0].(*ast.ReturnStmt); ok && len(rs.Results) == 0 {
+					ifAt = i
+				}
+			}
+			if poolAt < 0 && strings.Contains(txt, "initializeUpstreamConnectionPool(") {
+				poolAt = i
+			}
+		}
+		skips = sleepAt >= 0 && ifAt > sleepAt && poolAt > ifAt
+	}
+
 	s := header("ProxyPhase", "pkg/types/proxy.go (Phase)", "pkg/proxy/downstream.go (OnReceive, receive, setupRetry, onUpstreamRequestSent, doRetry)")
 	s += "inductive Phase where\n"
 	for _, n := range names {
@@ -349,6 +372,7 @@ func genProxyPhase() (string, error) {
 	s += fmt.Sprintf("/-- setupRetry starts with `if atomic.LoadUint32(&s.globalTimeoutExpired) == 1 { return false }` -/\ndef setupRetryChecksExpiry : Bool := %v\n", checks)
 	s += fmt.Sprintf("/-- the global timer callback stores globalTimeoutExpired before its CAS on upstreamResponseReceived -/\ndef globalCallbackRecordsExpiry : Bool := %v\n", records)
 	s += fmt.Sprintf("/-- doRetry runs onUpstreamRequestSent (both timers) when it has not run yet, else only setupPerReqTimeout -/\ndef retryArmsGlobalWhenUnsent : Bool := %v\n", arms)
+	s += fmt.Sprintf("/-- doRetry returns right after its back-off sleep, before it chooses a host, when a local reply is pending (`if s.directResponse { return }`) -/\ndef retrySkipsOnDirect : Bool := %v\n", skips)
 	s += footer("ProxyPhase")
 	return s, nil
 }
